@@ -397,7 +397,6 @@ Section SV.
   Definition sref (o : sobj) (m : list (option Z)) : Prop := ref (sbuf o) (ssize o) m /\ length (sbuf o) = Cap.
   Definition SI (s : sobj * sobj) (m : list (option Z) * list (option Z)) : Prop := sref (fst s) (fst m) /\ sref (snd s) (snd m).
   Definition smstep := lstep (option Z) (Some 0%Z) None Some (Some Cap).
-  Definition op_fits (o : op) : Prop := match o with Ctor n => n <= Cap | _ => True end.
 
   Lemma sref_default : sref (s_default Cap) [].
   Proof. unfold sref, ref, s_default. simpl. rewrite repeat_length. repeat split; auto; try lia. intros [|i] v; discriminate. Qed.
@@ -422,14 +421,14 @@ Section SV.
     rewrite nth_copy_cells by lia. replace (i <? ssize src) with true by (symmetry; apply Nat.ltb_lt; lia). now apply Rv.
   Qed.
 
-  Lemma SI_step s m o : op_fits o -> SI s m -> SI (sstep Cap s o) (smstep m o).
+  Lemma SI_step s m o : SI s m -> SI (sstep Cap s o) (smstep m o).
   Proof.
-    destruct s as [a b], m as [ma mb]. intros Hf [HA HB]. cbn [fst snd] in *.
+    destruct s as [a b], m as [ma mb]. intros [HA HB]. cbn [fst snd] in *.
     pose proof HA as ((As & Al & Av) & AL). pose proof HB as ((Bs & Bl & Bv) & BL).
     destruct o; unfold sstep, smstep, lstep; cbn [fst snd]; unfold SI; cbn [fst snd].
     - split; [apply sref_default | exact HB].
-    - split; [|exact HB]. simpl in Hf. unfold fits. replace (n <=? Cap) with true by (symmetry; apply Nat.leb_le; lia).
-      unfold sref, ref, s_sized. cbn [sbuf ssize]. rewrite !repeat_length. repeat split; auto.
+    - split; [|exact HB]. unfold fits, s_sized, s_resize. destruct (Nat.leb_spec n Cap) as [Hf|Hf]; [|apply sref_default].
+      unfold sref, ref, s_default. cbn [sbuf ssize]. rewrite !repeat_length. repeat split; auto.
       intros i v. rewrite !nth_repeat. destruct (Nat.ltb_spec i n); [|discriminate].
       replace (i <? Cap) with true by (symmetry; apply Nat.ltb_lt; lia). congruence.
     - split; [|exact HB]. unfold s_push, fits. rewrite <- As.
@@ -462,13 +461,9 @@ Section SV.
     - split; assumption.
   Qed.
 
-  Lemma SI_run ops : ctor_fits Cap ops = true -> SI (srun Cap ops) (smask_run Cap ops).
+  Lemma SI_run ops : SI (srun Cap ops) (smask_run Cap ops).
   Proof.
-    unfold srun, smask_run, lrun. intros Hc.
-    assert (G : forall s m, SI s m -> SI (fold_left (sstep Cap) ops s) (fold_left smstep ops m)).
-    { induction ops as [|o ops IH]; intros s m H; simpl; auto. simpl in Hc. apply andb_prop in Hc as [H1 H2].
-      apply IH; auto. apply SI_step; auto. destruct o; simpl; auto. now apply Nat.leb_le. }
-    apply G. split; apply sref_default.
+    unfold srun, smask_run, lrun. apply (fold_inv SI (sstep Cap) smstep SI_step). split; apply sref_default.
   Qed.
 End SV.
 
@@ -510,12 +505,12 @@ Proof.
   destruct V as (_ & _ & (B & L & _ & N) & NE & O). repeat split; auto; try apply L; apply F.
 Qed.
 
-Lemma static_vector_refinement Cap ops : ctor_fits Cap ops = true ->
+Lemma static_vector_refinement Cap ops :
   let s := srun Cap ops in let m := smask_run Cap ops in let l := std_run (Some Cap) ops in
   agrees (sbuf (fst s)) (ssize (fst s)) (fst m) (fst l) /\ agrees (sbuf (snd s)) (ssize (snd s)) (snd m) (snd l) /\
   length (sbuf (fst s)) = Cap /\ length (sbuf (snd s)) = Cap /\ ssize (fst s) <= Cap /\ ssize (snd s) <= Cap.
 Proof.
-  intros Hc. cbv zeta. destruct (SI_run Cap ops Hc) as ((RA & LA) & (RB & LB)). destruct (smask_std Cap ops) as [FA FB].
+  cbv zeta. destruct (SI_run Cap ops) as ((RA & LA) & (RB & LB)). destruct (smask_std Cap ops) as [FA FB].
   pose proof RA as (_ & A2 & _). pose proof RB as (_ & B2 & _).
   split; [apply agrees_intro; assumption|]. split; [apply agrees_intro; assumption|].
   split; [exact LA|]. split; [exact LB|]. split; lia.
